@@ -392,6 +392,29 @@ def operations(seed, n):
     return t
 
 
+def mixed_magnitudes():
+    """one array whose rows have very different magnitudes (each inside the stated 1e-100..1e100 range): every row is normalised on its own"""
+    t = Tally()
+    dirs = [g_unit(d) for d in DIRS4[:6]]
+    # Constructors!MixedStacks
+    for mags in ((1e100, 1.0, 1e-100), (1e-100, 1e100), (1e-100, 1e-100, 1e100, 1e-100), (1.0, 1e-100, 1e-8), (1e30, 1e-30, 1e30, 1e-30, 1.0)):
+        rows = np.array([m * dirs[i % 6] for i, m in enumerate(mags)])
+        for name, mk in (("QuaternionArray", lambda: np.asarray(QuaternionArray(rows.copy()))),
+                         ("QuaternionArray[order=S]", lambda: np.roll(np.asarray(QuaternionArray(np.roll(rows, -1, axis=1), order="S")), 1, axis=1)),
+                         ("QuaternionArray[list]", lambda: np.asarray(QuaternionArray(rows.tolist())))):
+            t.calls += 1
+            t.keys.add(("mixed-magnitudes", mags, name))
+            o = core.outcome(mk)
+            if o[0] != "ok":
+                t.fail("C11|%s|rows-of-mixed-magnitude|raises-%s" % (name, o[1]), {"magnitudes": mags, "err": o[2]})
+                continue
+            got = np.asarray(o[1], dtype=float)
+            want = np.array([dirs[i % 6] for i in range(len(mags))])
+            if got.shape != want.shape or not maxdiff(got, want) <= 1e-12:
+                t.fail("C11|%s|rows-of-mixed-magnitude|rows-not-normalised-to-their-own-direction" % name, {"magnitudes": mags, "got": got, "want": want})
+    return t
+
+
 def run(chk):
     quick = chk.tier == "quick"
     chk.rule = ("every row of the decision table emitted by TLC (constructor x shape x fill x decade x versor flag; matrix class x "
@@ -411,6 +434,7 @@ def run(chk):
         tallies = pool.map(replay_table, chunks)
     core.merge(chk, tallies)
     core.merge(chk, [operations(chk.seed, 200 if quick else 5000)])
+    core.merge(chk, [mixed_magnitudes()])
     # code -> spec: the observed outcome of every call must be a Construct step of the table; outcomes that
     # are open known findings are admitted by the as-built constant Deviations (and printed as KNOWN-FINDING)
     events = [e for tl in tallies for e in tl.events]
